@@ -162,6 +162,8 @@ class SymCtx:
             return IntV(x.n)
         if isinstance(x, TupV):
             return IntV(len(x))
+        if isinstance(x, ObjV) and "__len__" in x.fields:
+            return x.fields["__len__"]
         if isinstance(x, ObjV) and "pattern" in x.fields:
             return IntV(x.fields["pattern"].n)
         raise Unsupported(f"len of {x!r}")
@@ -321,6 +323,9 @@ class SymCtx:
             return IntV(Z(x) % nn)
         return IntV(REM(Z(x), Z(n)))
 
+    def truthy(self, v):
+        return BoolV(self.engine.truth(v, None))
+
     def floordiv(self, x, k):
         """x // k for a positive integer constant k"""
         return IntV(Z(x) / z3.IntVal(int(k)))
@@ -479,6 +484,9 @@ class RunCtx:
 
     def mod(self, x, n):
         return x % n
+
+    def truthy(self, v):
+        return bool(v)
 
     def floordiv(self, x, k):
         return x // k
